@@ -63,6 +63,15 @@ const (
 	OtherChunk   = 999999
 )
 
+// MixSeed scrambles a seed (splitmix64 finalizer): hx.NewRand(k+1) is hx.NewRand(k) shifted by one
+// draw, so consecutive VERIF_SEEDs would otherwise replay almost the same stream.
+func MixSeed(seed uint64) uint64 {
+	z := seed + 0x9E3779B97F4A7C15
+	z = (z ^ (z >> 30)) * 0xBF58476D1CE4E5B9
+	z = (z ^ (z >> 27)) * 0x94D049BB133111EB
+	return z ^ (z >> 31)
+}
+
 // ---------------------------------------------------------------- tokens
 
 func EncHs(l *hx.Line, hs []int) {
